@@ -710,3 +710,14 @@ Example boundary_hyps_example :
              w (DRec [("z"%string, DNull); ("n"%string, DNum 3 1)]) = Ok (DArr [DNum 3 1; DNum 3 1]) /\
              w (DRec [("n"%string, DStr "x")]) = Err (Blame Neg)).
 Proof. cbn. repeat split. eexists. split; [reflexivity|]. split; reflexivity. Qed.
+
+(* the typing hypothesis of [static_equiv_arrow] is satisfiable: the identity at [Number -> Number]
+   and a function building an array out of a record field *)
+Example static_equiv_hyps_example_id :
+  forall x r, member TNum x = true -> (fun v : dv => Ok v) x = Ok r -> member TNum r = true.
+Proof. intros x r Hm Hg. inversion Hg; subst. exact Hm. Qed.
+
+Example static_equiv_hyps_example_pair :
+  let g := fun v => match v with DNum n d => Ok (DArr [DNum n d; DNum n d]) | _ => Err FieldMissing end in
+  forall x r, member TNum x = true -> g x = Ok r -> member (TArr TNum) r = true.
+Proof. intros g x r Hm Hg. destruct x; try discriminate. inversion Hg; subst. reflexivity. Qed.
